@@ -110,6 +110,10 @@ func (c *Collection) Update(id string, msg proto.Message, opts ...WriteOption) (
 		&c.mu,
 		func() (item proto.Message, err error) {
 			if created != nil {
+				if _, exists := c.byId[id]; exists {
+					// someone else created the item while we were working out what to write
+					return nil, ExpectAbsentPreconditionFailed
+				}
 				return created, nil
 			}
 
